@@ -14,6 +14,55 @@ def CANON(t):
     return T.canon(t, minmax=True)
 
 
+def case_lines(pc_values):
+    """[(pc, value)] -> canonical CASE / RET lines"""
+    by_value = {}
+    order = []
+    for pc, v in pc_values:
+        cond = T.tand(*pc) if pc else T.TRUE
+        if cond == T.FALSE or CANON(cond) == T.FALSE:
+            continue
+        k = raw(v)
+        if k not in by_value:
+            by_value[k] = []
+            order.append(k)
+        by_value[k].append(cond)
+    out = []
+    for k in order:
+        cond = _absorb(by_value[k])
+        out.append(('RET ' + k) if cond == T.TRUE else f'CASE {raw(cond)} => {k}')
+    return out
+
+
+def term_case_lines(t):
+    """the guarded-case normal form of a value term, as a sorted list of lines (for comparing two terms up to how their
+    conditionals are nested)"""
+    return sorted(case_lines(cases(CANON(t))))
+
+
+def _absorb(conds):
+    """disjunction of conditions with  (A && B) || !B  ->  A || !B  applied to a fixed point"""
+    ds = []
+    for c in conds:
+        c = T.unroot(c) if not T.is_bool(c) else c
+        if isinstance(c, tuple) and c and c[0] == 'or':
+            ds.extend(c[1])
+        else:
+            ds.append(c)
+    changed = True
+    while changed:
+        changed = False
+        for i, d in enumerate(ds):
+            if isinstance(d, tuple) and d and d[0] == 'and':
+                keep = [x for x in d[1] if not any(j != i and CANON(o) == CANON(T.tnot(x)) for j, o in enumerate(ds))]
+                if len(keep) != len(d[1]):
+                    ds[i] = T.tand(*keep)
+                    changed = True
+        if T.TRUE in ds:
+            return T.TRUE
+    return CANON(T.tor(*ds))
+
+
 def _plain_local(body, lid):
     """a `let`-bound local that is not a mutable reference (so assigning to it cannot be seen from outside)"""
     b = body.binders.get(lid)
@@ -129,11 +178,9 @@ def summarise(crate, body, args=None):
         if e['kind'] == 'ret' and e['depth'] == 0 and not e['loops'] and not e.get('joined'):
             all_cases.append((tuple(e['pc']), CANON(e['value'])))
             e['as_case'] = True
-    for pc, v in all_cases:
-        cond = CANON(T.tand(*pc)) if pc else T.TRUE
-        if cond == T.FALSE:
-            continue
-        lines.append(('RET ' + raw(v)) if cond == T.TRUE else f'CASE {raw(cond)} => {raw(v)}')
+    # cases with the same value are one case under the disjunction of their conditions (so that `if a || b {0}` and
+    # `if b {return 0}; if a {return 0}` read alike); A && B || !B is written A || !B
+    lines.extend(case_lines(all_cases))
     lines[:] = sorted(set(lines))
     effects = []      # (indent, text, frozenset(pc)) in evaluation order
     loops = {}
